@@ -1109,9 +1109,9 @@ class K8SExecutor(Executor):
 
         # Add entire array to array jobs, and all jobs in array to pending jobs.
         array_job_name = k8s_resp.metadata.name
-        self.pending_k8s_jobs[array_job_name] = {}
-        for i in range(array_size):
-            cast("dict[int, Job]", self.pending_k8s_jobs[array_job_name])[i] = jobs[i]
+        # Publish the complete array at once: the monitor thread may poll pending_k8s_jobs
+        # at any time and must not see a partially registered array.
+        self.pending_k8s_jobs[array_job_name] = {i: jobs[i] for i in range(array_size)}
         array_job_id = k8s_resp.metadata.uid
 
         self.log(
